@@ -246,6 +246,14 @@ func (i *Interpreter) createDirectorRequest(ctx *context.Context, dc *value.Dire
 	if backend == nil {
 		return nil, errors.WithStack(ErrQuorumWeightNotReached)
 	}
+	// The member which the director determined may be a director itself, let it determine in turn.
+	// Members are resolved at declaration, so that a director only ever holds directors declared before it
+	if backend.Value == nil {
+		if backend.Director == nil || backend.Director == dc {
+			return nil, errors.WithStack(ErrQuorumWeightNotReached)
+		}
+		return i.createDirectorRequest(ctx, backend.Director)
+	}
 	// From here the request is processed with the backend which the director determined.
 	// req.backend gets its own value: a later assignment must not change the declared backend.
 	determined := *backend
@@ -379,7 +387,7 @@ func (i *Interpreter) directorBackendConsistentHash(dc *value.DirectorConfig) (*
 			binary.BigEndian.PutUint32(buf, dc.Seed)
 			hash := sha256.New() // TODO: consider to user hash/fnv for getting performance guarantee
 			hash.Write(buf)
-			hash.Write([]byte(v.Backend.Value.Name.Value))
+			hash.Write([]byte(v.Backend.String()))
 			hash.Write(fmt.Append([]byte{}, i))
 			h := hash.Sum(nil)
 			num := binary.BigEndian.Uint32(h[:8]) % maxNum
@@ -433,7 +441,12 @@ func (i *Interpreter) getBackendByHash(dc *value.DirectorConfig, hash []byte) (*
 			if !v.Backend.Healthy.Load() {
 				continue
 			}
-			bh := sha256.Sum256([]byte(v.Backend.Value.String()))
+			// A member may be a director, which has no backend declaration
+			decl := v.Backend.String()
+			if v.Backend.Value != nil {
+				decl = v.Backend.Value.String()
+			}
+			bh := sha256.Sum256([]byte(decl))
 			b := binary.BigEndian.Uint64(bh[:8])
 			if b%(maxNum*10) >= num && b%(maxNum*10) < num+maxNum {
 				target = v.Backend
